@@ -31,10 +31,25 @@ bool FnEmitter::emitIntrinsic(const CallBase& CB, const Function* callee) {
   std::string r = Ty->isVoidTy() ? "" : lname[&CB];
   auto nbits = [&]() { return T.bits(Ty); };
   switch (id) {
-  case Intrinsic::memcpy: case Intrinsic::memcpy_inline:
-    body << "  x_memcpy(" << A(0) << ", " << A(1) << ", (uint64_t)" << A(2) << ");\n"; return true;
-  case Intrinsic::memmove:
-    body << "  x_memmove(" << A(0) << ", " << A(1) << ", (uint64_t)" << A(2) << ");\n"; return true;
+  case Intrinsic::memcpy: case Intrinsic::memcpy_inline: case Intrinsic::memmove: {
+    bool mv = id == Intrinsic::memmove;
+    if (!isa<ConstantInt>(CB.getArgOperand(2))) {
+      // symbolic length: element-typed copy loop (CBMC's memmove model with a symbolic size explodes);
+      // the element type is the pointee type the pointers had before they were cast to i8*
+      Type* ET = nullptr;
+      for (unsigned k = 0; k < 2 && !ET; ++k) {
+        Type* PT = CB.getArgOperand(k)->stripPointerCasts()->getType()->getPointerElementType();
+        if (PT->isArrayTy()) PT = PT->getArrayElementType();
+        if (PT->isSized() && !PT->isFunctionTy() && T.DL.getTypeAllocSize(PT) > 0 &&
+            (PT->isIntegerTy() || PT->isPointerTy() || PT->isFloatingPointTy() || PT->isStructTy()))
+          ET = PT;
+      }
+      std::string et = ET ? ty(ET) : "uint8_t";
+      body << "  VF_TYPED_" << (mv ? "MOVE" : "COPY") << "(" << et << ", " << A(0) << ", " << A(1) << ", (uint64_t)" << A(2) << ");\n";
+      return true;
+    }
+    body << "  x_" << (mv ? "memmove" : "memcpy") << "(" << A(0) << ", " << A(1) << ", (uint64_t)" << A(2) << ");\n"; return true;
+  }
   case Intrinsic::memset:
     body << "  x_memset(" << A(0) << ", (int)" << A(1) << ", (uint64_t)" << A(2) << ");\n"; return true;
   case Intrinsic::lifetime_start: case Intrinsic::lifetime_end:
@@ -158,6 +173,30 @@ void FnEmitter::emitCall(const CallBase& CB) {
       else if (F.getReturnType()->isVoidTy()) body << "  return;\n";
       else body << "  { " << ty(F.getReturnType()) << " vf_z; memset(&vf_z, 0, sizeof vf_z); return vf_z; }\n";
       return;
+    }
+    if ((n == "malloc" || n == "_Znwm" || n == "_Znam") && isa<ConstantInt>(CB.getArgOperand(0))) {
+      // typed allocation: malloc(C) whose result is bitcast to S* with sizeof(S) dividing C becomes
+      // malloc(k * sizeof(struct S)), so that CBMC creates a typed (field-sensitive) dynamic object
+      uint64_t C = cast<ConstantInt>(CB.getArgOperand(0))->getZExtValue();
+      Type* found = nullptr;
+      bool unique = true;
+      for (const User* U : CB.users())
+        if (auto* BC = dyn_cast<BitCastInst>(U)) {
+          Type* PT = BC->getType()->getPointerElementType();
+          if ((PT->isStructTy() || PT->isArrayTy()) && PT->isSized()) {
+            uint64_t sz = T.DL.getTypeAllocSize(PT);
+            if (sz > 0 && C % sz == 0) {
+              if (found && found != PT) { if (T.DL.getTypeAllocSize(found) < sz) found = PT; }
+              else found = PT;
+            }
+          }
+        }
+      if (found && unique && C > 0) {
+        uint64_t k = C / T.DL.getTypeAllocSize(found);
+        T.externsUsed.insert(n.str());
+        body << "  " << lname[&CB] << " = (char*)malloc(" << k << " * sizeof(" << ty(found) << ")); VF_ASSUME(" << lname[&CB] << " != 0);\n";
+        return;
+      }
     }
     if (n == "vf_cover") {
       std::string msg;
